@@ -711,3 +711,20 @@ path contains no colon) -/
 def noLeadingColon (s : Str) : Bool := s.head? != some ':'
 
 end EPV.XSD
+
+/-! ## casting xs:string to xs:QName — F&O 3.1 §19.3.? / XPath 3.1 §3.18.?: the lexical form (whiteSpace = collapse) must be a
+QName (else FORG0001); a prefix is resolved in the statically known namespaces (absent: FONS0004); **an unprefixed name is in
+the default element/type namespace**.  `none` = an error. -/
+namespace EPV.XSD
+
+def castToQName (known : List (Str × Str)) (defaultElementNs : Str) (s : Str) : Option (Str × Str × Str) :=
+  let c := wsCollapse s
+  if !qNameLex c then none
+  else if c.contains ':' then
+    let p := c.takeWhile (· != ':')
+    match known.find? (·.1 == p) with
+    | some e => some (e.2, p, (c.dropWhile (· != ':')).drop 1)
+    | none => none
+  else some (defaultElementNs, [], c)
+
+end EPV.XSD
